@@ -18,6 +18,7 @@ type Result struct {
 	Status  string // unsat | sat | unknown | timeout | error | trivial
 	Solver  string
 	Secs    float64
+	MaxQ    float64 // slowest single solver query behind this result
 	Model   map[string]string
 	Raw     string
 	Attempt []string
@@ -671,6 +672,7 @@ func dischargeParts(cfg *solveCfg, e *Engine, o *Obligation, base, extra []*Term
 			res.Solver = strings.Join(ns, "+")
 			res.Attempt = append(res.Attempt, fmt.Sprintf("%d path/case queries, slowest %.2fs", len(parts), maxSecs))
 		}
+		res.MaxQ = maxSecs
 		o.Result = res
 	}()
 }
